@@ -45,7 +45,9 @@ POOL = {
     # further un-aliased objects for tables that may be in the statement already (self-joins; the same name in another schema): joined, they
     # are given the automatic alias <name>2, <name>3, ...
     "P3": ["tbl", "tp", None, None], "P4": ["tbl", "tp", None, None], "TS": ["tbl", "ts", None, None],
-    "Q": ["sub", SUBP, "qq"], "QN": ["sub", SUBP, None], "QN2": ["sub", SUBP2, None], "UN": ["sub", SUBU, None], "C": ["cte", "cc"], "F": ["tbl", "tf", None, None],
+    "Q": ["sub", SUBP, "qq"], "QN": ["sub", SUBP, None], "QN2": ["sub", SUBP2, None], "UN": ["sub", SUBU, None],
+    # QU: a query object an earlier statement used already: it carries the alias sq0 from there
+    "QU": ["sub", SUBP2, None, {"preused": True}], "C": ["cte", "cc"], "F": ["tbl", "tf", None, None],
 }
 
 
@@ -66,7 +68,12 @@ def auto_names(case):
         if key in out or key not in POOL:
             continue
         spec = POOL[key]
-        if key in AUTO:
+        if key == "QU":
+            out[key] = "sq0"
+            used.add("sq0")
+        elif key in AUTO:
+            while "sq%d" % nsq in used:
+                nsq += 1  # a name that addresses a source already is not given again
             out[key] = "sq%d" % nsq
             nsq += 1
             used.add(out[key])
@@ -86,8 +93,10 @@ def auto_names(case):
 
 
 def qual_name(key, auto=None):
-    if auto is not None and key in DUPS:
+    if auto is not None and key in DUPS + ("QU",):
         return auto
+    if key == "QU":
+        return "sq0"
     auto = auto or "sq0"
     spec = POOL[key]
     if spec[0] == "tbl":
@@ -176,7 +185,7 @@ def program(draw):
     sources = []
     meta = {"kind": kind}
     if kind == "select":
-        first = draw(st.sampled_from(table_keys + ["Q", "QN", "C", "UN"]))
+        first = draw(st.sampled_from(table_keys + ["Q", "QN", "C", "UN", "QU"]))
         if first == "C":
             steps.append(["with_", [["q", SUBP], ["py", "cc"]]])
         steps.append(["from_", [["src", first]]])
@@ -187,7 +196,7 @@ def program(draw):
                 steps.append(["from_", [["src", second]]])
                 sources.append(second)
         for _ in range(draw(st.integers(0, 2))):
-            cand = [k for k in table_keys + ["Q", "QN", "QN2", "UN"] if k not in sources and (POOL[k][0] != "tbl" or POOL[k][3] or all(POOL[s][0] != "tbl" or POOL[s][1] != POOL[k][1] or POOL[s][3] for s in sources))]
+            cand = [k for k in table_keys + ["Q", "QN", "QN2", "UN", "QU"] if k not in sources and (POOL[k][0] != "tbl" or POOL[k][3] or all(POOL[s][0] != "tbl" or POOL[s][1] != POOL[k][1] or POOL[s][3] for s in sources))]
             cand = [k for k in cand if not (POOL[k][0] == "tbl" and not POOL[k][3] and any(POOL[s][0] == "tbl" and POOL[s][1] == POOL[k][1] and not POOL[s][3] for s in sources))]
             # a further un-aliased object of a table whose name already addresses a source (self-join, same name in another schema)
             cand += [k for k in DUPS if k not in sources and any(POOL[s][0] == "tbl" and POOL[s][1] == POOL[k][1] and not POOL[s][3] for s in sources)] * 2
